@@ -177,6 +177,8 @@ def gen_case(rng, tier, g):
                 'latency': [rng.choice([0, 1, 5, 100])
                             for _ in range(rng.randint(1, 3))],
                 'consumers': rng.choice([1, 1, 2]),
+                'level': rng.choice([logging.INFO, logging.INFO,
+                                     logging.DEBUG, logging.WARNING]),
                 'prefix': rng.choice(['', 'p: ', 'load (100%): ', '%s %d',
                                       '{0} {x}', 'é: '])}
     table = gen_table(rng, maxrows + 2, nfields=rng.randint(1, 3))
@@ -449,7 +451,8 @@ def _run_timing(e, case, log):
             handler = _ListHandler()
             logger.handlers = [handler]
             view = e.log_progress(src, case['batchsize'],
-                                  prefix=case['prefix'], logger=logger)
+                                  prefix=case['prefix'], logger=logger,
+                                  level=case.get('level', logging.INFO))
         else:
             view = e.clock(src)
         want = canon_rows(rows)
